@@ -107,7 +107,11 @@ impl Prop for C17 {
         (
             proptest::option::weighted(0.7, archive_string()),
             prop_oneof![2 => Just(Vec::new()), 3 => proptest::collection::vec((0u16..257, archive_string()), 0..12), 1 => archive_string().prop_map(|n| (0u16..257).map(|i| (i, format!("{n}{i}"))).collect())],
-            proptest::collection::vec((label_strategy(), slots_strategy()).prop_map(|(label, slots)| SetSpec { label, slots }), 0..=max_sets),
+            {
+                let set = (label_strategy(), slots_strategy()).prop_map(|(label, slots)| SetSpec { label, slots }).boxed();
+                // 1 case in 100 has hundreds of sets
+                prop_oneof![99 => proptest::collection::vec(set.clone(), 0..=max_sets), 1 => proptest::collection::vec(set, 260..=700)]
+            },
         )
             .prop_map(|(meta, clips, sets)| Case { meta, clips, sets, dense: 0 })
             .boxed()
@@ -245,6 +249,7 @@ impl Prop for C17 {
         }
         cx.label_if(any_partial, "set-with-absent-group");
         cx.label_if(any_empty, "empty-set");
+        cx.label_if(case.sets.len() > 255, ">255-sets");
         cx.label_if(a.sets.last().map(|s| s[0].is_none() && s[1..].iter().all(|x| x.is_none())).unwrap_or(false), "last-set-empty-and-unlabelled");
         cx.label_if(a.sets.iter().any(|s| (0..8).any(|g| (0..32).filter(|b| s[1 + g * 32 + b].is_some()).count() == 1 && s[1 + g * 32 + 31].is_some())), "group-with-only-bit-31");
         cx.label_if(a.meta.is_none(), "meta-none");
